@@ -70,7 +70,7 @@ let () =
          | _ :: _, [] -> () in
        pr true ops nonempty evs;
        let n = r.rn in
-       if int_of_z n.n_open = 0 then Printf.printf "| open=0 q=-"
+       if int_of_z n.n_open = 0 || int_of_z n.n_q.q_max = 0 then Printf.printf "| open=%s q=-" (string_of_z n.n_open)
        else Printf.printf "| open=%s q=%s/%s/%s" (string_of_z n.n_open) (string_of_z n.n_q.q_max) (string_of_z n.n_q.q_rd) (string_of_z n.n_q.q_wr);
        Printf.printf " ac=%s dic=%s" (if n.n_addr_changed then "1" else "0") (if r.r_devinfo_changed then "1" else "0");
        List.iteri (fun i d ->
